@@ -195,6 +195,10 @@ def evaluate(case):
                 if refused:
                     classes.append("eofcancel-refused")
                     continue
+                earlier_eof_cancel = any(x[0] == "call" and x[1] == "dst" and x[3] == "EOF" and x[5] is not None and int(x[5].condition_code) != 0 for x in log[:pos])
+                if earlier_eof_cancel:
+                    # the sender's own EOF (cancel) was delivered before: the transaction is already being cancelled with that condition
+                    effective["dst"] = True
                 if effective["dst"] or any((x[0] == "ind" and x[1] == "dst" and x[2] == "finished") or (x[0] == "fault" and x[1] == "dst" and x[2] in ("CANCEL", "ABANDON")) for x in log[:pos]):
                     # the receiver has already completed or cancelled this transaction: the late EOF (cancel) cannot finish it again
                     classes.append("eofcancel-after-completion")
@@ -209,6 +213,12 @@ def evaluate(case):
                     classes.append("eofcancel-after-complete-data")
                     continue
                 effective["dst"] = True
+                nxt_fin = next((j for j, x in enumerate(log[pos + 1 :]) if x[0] == "ind" and x[1] == "dst" and x[2] == "finished"), None)
+                later_local = [x for x in log[pos + 1 : (pos + 1 + nxt_fin) if nxt_fin is not None else None] if x[0] == "inject" and x[1] == "dst" and x[2] == "cancel" and x[4] is True]
+                if later_local:
+                    # an accepted local Cancel.request before the completion overrides the EOF's condition and fault location
+                    classes.append("eofcancel-overridden-by-local-cancel")
+                    continue
                 classes.append("eofcancel-delivered")
                 if 0 < sent < size:
                     nt = True
